@@ -173,7 +173,21 @@ func gen(r *hx.Rand, n int, tier string, emit func(string), st *hx.Stats) {
 		case k < 978:
 			st.Inc("winC")
 			emit(fmt.Sprintf("winC %d %d %d", pick(c, 2, 4), 1+c.Intn(3), c.Intn(3)))
-		case k < 988:
+		case k < 983:
+			st.Inc("race")
+			capacity := pick(c, 4, 8)
+			nS := 2 + c.Intn(3)
+			perm := make([]int, nS)
+			for j := range perm {
+				perm[j] = j
+			}
+			hx.Shuffle(c, perm)
+			ps := make([]string, nS)
+			for j, x := range perm {
+				ps[j] = strconv.Itoa(x)
+			}
+			emit(fmt.Sprintf("race %d %s", capacity, strings.Join(ps, ",")))
+		case k < 990:
 			st.Inc("awin")
 			emit(fmt.Sprintf("awin %d %d", 1+c.Intn(4), c.Intn(2)))
 		default:
@@ -546,6 +560,82 @@ loop:
 	return fmt.Sprintf("ret=%d size=%d vals=%s", len(got), size, fmtInts(got))
 }
 
+// loopCtx stops the callee at its second Err() call: inside Send that is the first evaluation of the
+// loop condition, i.e. after `pos = head.Load()` and before `cell.Sequence.Load()`, read lock held.
+type loopCtx struct {
+	context.Context
+	calls   atomic.Int32
+	at      chan struct{}
+	release chan struct{}
+}
+
+func (l *loopCtx) Err() error {
+	if l.calls.Add(1) == 2 {
+		l.at <- struct{}{}
+		<-l.release
+	}
+	return nil
+}
+func (l *loopCtx) Done() <-chan struct{} { return nil }
+
+// race <cap> <perm>: len(perm) senders all load the same head position and stop; they are then released
+// one at a time in the order perm (each runs to completion): all but the first find their position
+// taken (diff > 0), reload head and claim the next one.  The queue must contain the values in release order.
+func execRace(f []string) string {
+	capacity, _ := strconv.Atoi(f[1])
+	var perm []int
+	for _, x := range strings.Split(f[2], ",") {
+		v, _ := strconv.Atoi(x)
+		perm = append(perm, v)
+	}
+	n := len(perm)
+	if n > capacity {
+		return "badcase"
+	}
+	q := mpmc.MustQueue[int](capacity, 0)
+	ctxs := make([]*loopCtx, n)
+	dones := make([]chan bool, n)
+	for i := 0; i < n; i++ {
+		ctxs[i] = &loopCtx{Context: bg, at: make(chan struct{}, 1), release: make(chan struct{})}
+		dones[i] = make(chan bool, 1)
+		go func(i int) {
+			defer catchPanic()
+			dones[i] <- q.Send(ctxs[i], 100+i)
+		}(i)
+	}
+	for i := 0; i < n; i++ {
+		select {
+		case <-ctxs[i].at:
+		case <-time.After(5 * time.Second):
+			poisoned.Store(true)
+			return "TIMEOUT senders did not reach the loop head"
+		}
+	}
+	oks := make([]string, 0, n)
+	for _, i := range perm {
+		close(ctxs[i].release)
+		select {
+		case ok := <-dones[i]:
+			oks = append(oks, map[bool]string{true: "T", false: "F"}[ok])
+		case <-time.After(5 * time.Second):
+			poisoned.Store(true)
+			return "TIMEOUT a released sender did not complete"
+		}
+	}
+	var got []int
+	for {
+		v, ok := q.Recv(cancelledCtx())
+		if !ok {
+			break
+		}
+		got = append(got, v)
+	}
+	if m := takePanic(); m != "" {
+		return m
+	}
+	return fmt.Sprintf("sends=%s order=%s", strings.Join(oks, ""), fmtInts(got))
+}
+
 // winC <cap> <nR> <k>: nR receivers stopped before parking, k Sends, then Close, then release:
 // every receiver must return (k of them with an item, in any assignment; the rest with false).
 func execWinC(f []string) string {
@@ -757,6 +847,8 @@ func exec(line string, st *hx.Stats) string {
 		run = func() string { return execWinS(f) }
 	case f[0] == "winC" && len(f) == 4:
 		run = func() string { return execWinC(f) }
+	case f[0] == "race" && len(f) == 3:
+		run = func() string { return execRace(f) }
 	case f[0] == "awin" && len(f) == 3:
 		run = func() string { return execAwin(f) }
 	default:
